@@ -191,6 +191,12 @@ pub fn analyze_pattern(
     Ok((all_bindings, binding_sets, result_type_id, narrowed_type_id))
 }
 
+/// Whether a pattern with these binding sets matches every value it is applied to (some binding
+/// set has no runtime requirement).
+pub fn always_matches(binding_sets: &[BindingSet]) -> bool {
+    binding_sets.iter().any(|bs| bs.requirements.is_empty())
+}
+
 /// Generate bytecode for pattern matching
 pub fn generate_pattern_code(
     codegen: &mut InstructionBuilder,
